@@ -2,7 +2,7 @@ From Coq Require Import List NArith ZArith Permutation Sorting.Sorted.
 Require mathcomp.algebra.mxalgebra mathcomp.algebra.matrix mathcomp.algebra.rat.
 Require SK.lib.RankBridge SK.proof.C17_Rank.
 From SK Require Import lib.IRSortKeys lib.C17_Farkas model.C17_Model proof.C17_Proof model.C17_NodeModel proof.C17_Nodes
-  model.C17_IntLaws proof.C17_IntLawsProof model.C17_RawModel proof.C17_Raw model.C17_Fallback proof.C17_FallbackProof.
+  model.C17_IntLaws proof.C17_IntLawsProof model.C17_RawModel proof.C17_Raw model.C17_Fallback proof.C17_FallbackProof proof.C17_Premises.
 Import ListNotations.
 
 (** (1) build_S: one row per species, one column per reaction. *)
@@ -320,3 +320,16 @@ Theorem C17_rank_of_network : forall (net : list rxn) (iso : list str) (c : rcer
      (@mathcomp.algebra.mxalgebra.kermx F n m (@mathcomp.algebra.matrix.trmx mathcomp.algebra.rat.rat m n M)) = (n - rc_r c)%nat.
 Proof. intros net iso c m n H. exact (C17_rank_cert_sound m n (build_S net iso) c H). Qed.
 Print Assumptions C17_rank_of_network.
+
+(** [C17_verdicts_sound] with its premises CHECKED instead of assumed: the observable of every network case ends with
+    [premises_ok] = implb(flag of the external numerics, certified truth) for the four flags (sign scan of the left basis, LP of
+    _positive_conservation_law_from_basis, LP of is_consistent accepted, sign scan of the right basis), compared with four Trues on
+    every run.  Whenever that slot is all true the verdict logic is sound on that input — no assumption about numpy / scipy / HiGHS
+    is left: a positive verdict comes with a checked certificate. *)
+Theorem C17_verdicts_sound_checked :
+  forall (k kr n : nat) (S : list (list Z)) (cc fc : fcert) (nm : numerics),
+  premises_ok n S cc fc nm = [true; true; true; true] ->
+  (conservative_verdict k nm = true -> conservative n S) /\
+  (consistent_verdict kr nm = Some true -> consistent n S).
+Proof. exact verdicts_sound_checked. Qed.
+Print Assumptions C17_verdicts_sound_checked.
